@@ -265,7 +265,10 @@ pub fn st2_deposit_events(rec: &mut Rec, r: &mut StdRng, run: u64, n: usize) {
             2 => (pa / 10 + 1, pb / 10 + 1),
             _ => (gen::log_uniform(r, 1, pa), gen::log_uniform(r, 1, pb)),
         };
-        let supply = gen::log_uniform(r, 2000, 1u128 << 90);
+        // reachable supplies: the first deposit mints D - 2000 and nothing afterwards lets the supply outgrow D
+        let d0c = catch_unwind(AssertUnwindSafe(|| pairh::compute_d(&amp, Uint128::new(pa), Uint128::new(pb)))).ok().flatten()
+            .and_then(|d| Uint128::try_from(d).ok()).map(|d| d.u128()).unwrap_or(pa + pb).max(4000);
+        let supply = if r.gen_bool(0.4) { d0c - 2000 } else { gen::log_uniform(r, (d0c / 1000).max(2000), d0c) };
         let rr = catch_unwind(AssertUnwindSafe(|| pairh::compute_lp_mint_amount_for_stableswap_deposit(&amp, Uint128::new(xa), Uint128::new(xb), Uint128::new(pa), Uint128::new(pb), Uint128::new(supply))));
         let (res, minted) = match rr { Ok(Some(m)) => ("ok", m.u128()), Ok(None) => ("rejected", 0), Err(_) => ("aborted", 0) };
         rec.emit(json!({"ev": "st2dep", "run": run, "step": step,
@@ -301,7 +304,10 @@ pub fn st3_events(rec: &mut Rec, r: &mut StdRng, run: u64, n: usize) {
             6..=8 => {
                 let dep = |r: &mut StdRng, p: u128| -> u128 { match r.gen_range(0..4) { 0 => 0, 1 => p / 10 + 1, _ => gen::log_uniform(r, 1, p) } };
                 let (xa, xb, xc) = (dep(r, src), dep(r, dst), dep(r, uns));
-                let supply = gen::log_uniform(r, 3000, 1u128 << 100);
+                // reachable supplies: the first deposit mints D - 3000 and nothing afterwards lets the supply outgrow D
+                let d0c = catch_unwind(AssertUnwindSafe(|| curve.compute_d(Uint128::new(src), Uint128::new(dst), Uint128::new(uns)))).ok().flatten()
+                    .and_then(|d| Uint128::try_from(d).ok()).map(|d| d.u128()).unwrap_or(src).max(6000);
+                let supply = if r.gen_bool(0.4) { d0c - 3000 } else { gen::log_uniform(r, (d0c / 1000).max(3000), d0c) };
                 let rr = catch_unwind(AssertUnwindSafe(|| curve.compute_mint_amount_for_deposit(Uint128::new(xa), Uint128::new(xb), Uint128::new(xc), Uint128::new(src), Uint128::new(dst), Uint128::new(uns), Uint128::new(supply))));
                 let (res, minted) = match rr { Ok(Some(m)) => ("ok", m.u128()), Ok(None) => ("rejected", 0), Err(_) => ("aborted", 0) };
                 rec.emit(json!({"ev": "st3dep", "run": run, "step": step,
